@@ -111,6 +111,17 @@ func (e *Enc) Run() (err error) {
 			e.sc.AssertNamed(t, "closure invariant "+c.Text)
 		}
 	}
+	// lock discipline: a function is entered holding no mutex except those its contract names with held(...)
+	{
+		h0 := e.lookup(e.entry, "L$held", ArraySort(SInt, SInt))
+		init := T("((as const (Array Int Int)) 0)", ArraySort(SInt, SInt))
+		for _, n := range e.heldNamed {
+			hv := e.fresh("heldmode", SInt)
+			e.sc.Assert(Or(Eq(hv, IntLit(1)), Eq(hv, IntLit(2))))
+			init = Store(init, n, hv)
+		}
+		e.sc.AssertNamed(Eq(h0, init), "no mutex is held at entry except those named by held(...) in requires (checked at call sites by PROTO.lock.nested for the mutexes the callee acquires)")
+	}
 	if err := e.assumeGlobalInvs(e.entry); err != nil {
 		return err
 	}
@@ -983,6 +994,16 @@ func (e *Enc) execUnOp(x *ssa.UnOp) error {
 				return nil
 			}
 		}
+		if a, ok := x.X.(*ssa.Alloc); ok && !e.localCells[a] {
+			// a captured variable written once before any closure is created and only read afterwards
+			if st := e.writeOnceStore(a); st != nil && before(st, x) {
+				if sv, defined := e.vals[st.Val]; defined {
+					e.define(x, sv)
+					e.assumed["captured variables that are written once before the closure is created and only read afterwards have a fixed value (site scan of every function capturing them)"] = true
+					return nil
+				}
+			}
+		}
 		lv := e.lvalOf(x.X)
 		e.checkNilLV(lv, x.X, x.Pos())
 		v := e.purify(e.load(lv))
@@ -1673,4 +1694,25 @@ func (e *Enc) finiteUse(at ssa.Instruction, how string, ts ...Term) {
 		}
 		e.oblige("FP.finite", "", nil, Not(c), "a float that is "+how+" here must be finite: the divisor of the division it comes from must be non-zero", pos)
 	}
+}
+
+
+// writeOnceStore: the single store to a captured variable's cell when the cell is write-once (see writeOnceCell).
+func (e *Enc) writeOnceStore(a *ssa.Alloc) *ssa.Store {
+	if e.woCache == nil {
+		e.woCache = map[*ssa.Alloc]*ssa.Store{}
+	}
+	if st, ok := e.woCache[a]; ok {
+		return st
+	}
+	var st *ssa.Store
+	if writeOnceCell(a, 0) && a.Referrers() != nil {
+		for _, r := range *a.Referrers() {
+			if s, ok := r.(*ssa.Store); ok && s.Addr == ssa.Value(a) {
+				st = s
+			}
+		}
+	}
+	e.woCache[a] = st
+	return st
 }
